@@ -33,37 +33,49 @@ def table_replay(run, lines, driver_args, module, cfg, label, classify=None, sha
         if rc != 0:
             raise Inconclusive("driver failed (%s): %s" % (label, (se + so)[-2000:]))
     tdrive = time.time() - t
-    allt = os.path.join(wd, "all.ndjson")
-    with open(allt, "w") as f:
-        for j in jobs:
-            f.write(open(j[2]).read())
-    cases = [l for l in open(allt).read().split("\n") if l.strip()]
-    remaining = cases
+    # every shard's case table is judged by its own TLC run (first pass in parallel)
+    shard_cases = []
+    for j in jobs:
+        shard_cases.append([l for l in open(j[2]).read().split("\n") if l.strip()])
+    cases = [c for sc in shard_cases for c in sc]
+    t = time.time()
+
+    def first_pass(k):
+        cur = os.path.join(wd, "cur%d.ndjson" % k)
+        open(cur, "w").write("\n".join(shard_cases[k]) + "\n")
+        return run.validate_trace(module, cfg, cur, timeout=1500, heap="4g") if shard_cases[k] else {"accepted": True}
+    firsts = parallel(first_pass, list(range(len(shard_cases))), min(8, len(shard_cases)))
     reported = 0
     seen = set()
-    t = time.time()
-    for _ in range(60):
-        cur = os.path.join(wd, "cur.ndjson")
-        open(cur, "w").write("\n".join(remaining) + "\n")
-        r = run.validate_trace(module, cfg, cur)
-        if r["accepted"]:
-            break
-        if "line" not in r:
-            raise Inconclusive("TLC failed on the case table (%s): %s" % (label, r.get("error") or r["out"][-2000:]))
-        bad = remaining[r["line"] - 1]
-        known = classify(run, bad) if classify else None
-        if known:
-            run.known_finding(known[0], known[1])
-        elif reported >= 5:
-            break
-        elif bad in seen:
-            pass
-        else:
-            seen.add(bad)
-            reported += 1
-            run.violation("%s: observed case is not allowed by the specification: %s" % (label, bad[:600]),
-                          {"kind": "case", "module": module, "cfg": cfg, "driver_args": driver_args, "case": bad, "scenario": json.dumps(json.loads(bad).get("case") or json.loads(bad).get("env"))})
-        remaining = [c for k, c in enumerate(remaining) if k != r["line"] - 1 and c != bad]
+    remaining_total = 0
+    for k, r in enumerate(firsts):
+        remaining = shard_cases[k]
+        for _ in range(40):
+            if r["accepted"]:
+                break
+            if "line" not in r:
+                raise Inconclusive("TLC failed on the case table (%s): %s" % (label, r.get("error") or r["out"][-2000:]))
+            bad = remaining[r["line"] - 1]
+            known = classify(run, bad) if classify else None
+            if known:
+                run.known_finding(known[0], known[1])
+            elif reported >= 5:
+                break
+            elif bad in seen:
+                pass
+            else:
+                seen.add(bad)
+                reported += 1
+                run.violation("%s: observed case is not allowed by the specification: %s" % (label, bad[:600]),
+                              {"kind": "case", "module": module, "cfg": cfg, "driver_args": driver_args, "case": bad, "scenario": json.dumps(json.loads(bad).get("case") or json.loads(bad).get("env"))})
+            remaining = [c for i2, c in enumerate(remaining) if i2 != r["line"] - 1 and c != bad]
+            if not remaining:
+                break
+            cur = os.path.join(wd, "cur%d.ndjson" % k)
+            open(cur, "w").write("\n".join(remaining) + "\n")
+            r = run.validate_trace(module, cfg, cur, timeout=1500, heap="4g")
+        remaining_total += len(remaining)
+    remaining = [None] * remaining_total
     run.traces_validated += len(remaining)
     run.evaluations += len(cases)
     run.nontrivial += sum(1 for c in cases if (nontrivial(c) if nontrivial else True))
